@@ -31,6 +31,10 @@ def families(tier, rng):
             for nth in (1, 2):
                 sch = OBS_A + sc[:1] + [["fault", 1, op, nth]] + sc[1:-1] + PROBE + OBS_B
                 fam.append(("faultop:%s:%s" % (name, op), sch))
+            # the same failure reported the way a third-party backend may: aioftp's own PathIOError, or a non-OSError exception
+            for flavour in ("pathioerror", "exception"):
+                sch = OBS_A + sc[:1] + [["fault", 1, op, 1, flavour]] + sc[1:-1] + PROBE + OBS_B
+                fam.append(("faultop:%s:%s:%s" % (name, op, flavour), sch))
     # two backend failures of one session in the same event-loop iteration: a transfer worker and the handler of a
     # command sent meanwhile are both held inside a backend call, then both calls fail at once
     login = [["connect", 1], ["send", 1, "USER u1"], ["send", 1, "PASS pw1"]]
